@@ -88,7 +88,7 @@ def u_query_bulk(ctx, index):
     hs.ip.note_write(fr.locals['datapointsByMetric'])
   hs.ip.label_prefix = 'C02/'
   hs.ip.loops[(H + '.stringReceived', 0)] = LoopSpec('for metric in metrics', inv, havoc,
-                                                       locals_modified=['metric'])
+                                                       locals_modified=[])
   hs.ip.run(H + '.stringReceived', [b'raw'], self_obj=handler)
   ctx.cover('bulk/returns')
   ctx.check('C02/query/cache-query-bulk/frame', z3.And(d.keys == old.keys, d.inner == old.inner, d.card == old.card,
